@@ -28,14 +28,15 @@ def one(tid):
         p = subprocess.run('patch -p1 -s < %s' % os.path.join(d, 'patch.diff'), cwd=base, shell=True, stdout=subprocess.PIPE, stderr=subprocess.STDOUT, text=True)
         if p.returncode != 0:
             return tid, {'error': p.stdout[-300:]}
-        kk = set((k['property'], k['rule'], k['key']) for k in load_known().get('known', []))
+        from vt.core import known_set, is_known
+        kk = known_set()
         res = {}
         for pid in ALL:
             pm = importlib.import_module('vt.props.%s' % pid.lower())
             try:
                 rep = Report(pid, 'quick', Repo(base))
                 pm.run(rep)
-                v = [(o.rule, o.key, o.detail[:220]) for o in rep.obligations if not o.ok and (pid, o.rule, o.key) not in kk]
+                v = [(o.rule, o.key, o.detail[:220]) for o in rep.obligations if not o.ok and not is_known(pid, o.rule, o.key, kk)]
                 if v:
                     res[pid] = ('viol', v)
                 elif rep.gaps:
